@@ -59,6 +59,26 @@ Definition i_next (s : isrc) : isrc * res bytes :=
 Definition i_close (s : isrc) : isrc :=
   if i_has_close s then {| i_chunks := []; i_has_close := true |} else s.
 
+(* sources that can FAIL and go on.  A scripted iterator: the answers to successive next()
+   calls - a chunk, a transient error raised once (the next call resumes), or StopIteration
+   in the middle (a resumable source: more data later); after the script: StopIteration. *)
+Record ssrc := { ss_items : list (res bytes) }.
+Definition ss_next (s : ssrc) : ssrc * res bytes :=
+  match ss_items s with
+  | [] => (s, Exn StopIteration)
+  | r :: t => ({| ss_items := t |}, r)
+  end.
+
+(* a file whose read() fails transiently: one entry per read call, Some e = this call raises
+   e and consumes nothing *)
+Record ffsrc := { ff_src : fsrc; ff_faults : list (option exn) }.
+Definition ff_read (s : ffsrc) (size : Z) : ffsrc * res bytes :=
+  match ff_faults s with
+  | Some e :: t => ({| ff_src := ff_src s; ff_faults := t |}, Exn e)
+  | _ => let (f', r) := f_read (ff_src s) size in ({| ff_src := f'; ff_faults := tl (ff_faults s) |}, r)
+  end.
+Definition ff_close (s : ffsrc) : ffsrc := {| ff_src := f_close (ff_src s); ff_faults := ff_faults s |}.
+
 (* ------------------------------------------------------------------ wrapper *)
 
 Section Wrap.
@@ -249,6 +269,26 @@ Definition w_read (w : wrapper) (s : fsrc) (size : Z) : wrapper * fsrc * list ea
 (* InspectWrapper.__next__() on an iterator source *)
 Definition w_next (w : wrapper) (s : isrc) : wrapper * isrc * list eat_ev * input * output :=
   let (s', r) := i_next s in
+  let '(w', tr, o) := w_step w (src_input r) in
+  (w', s', tr, src_input r, o).
+
+(* the same two methods over ANY source (its read / next may raise any exception at any call
+   and go on afterwards).  read(): every exception of the source propagates as it is;
+   __next__(): StopIteration -> _finish() then re-raise, any other exception propagates as it
+   is.  In both cases a failing source call leaves the wrapper untouched (except that
+   StopIteration in __next__ finishes it). *)
+Definition src_input_read (r : res bytes) : input :=
+  match r with Ok c => InChunk c | Exn e => InSrcErr e end.
+
+Definition w_read_on (Src : Type) (src_read : Src -> Z -> Src * res bytes) (w : wrapper) (s : Src) (size : Z)
+  : wrapper * Src * list eat_ev * input * output :=
+  let (s', r) := src_read s size in
+  let '(w', tr, o) := w_step w (src_input_read r) in
+  (w', s', tr, src_input_read r, o).
+
+Definition w_next_on (Src : Type) (src_next : Src -> Src * res bytes) (w : wrapper) (s : Src)
+  : wrapper * Src * list eat_ev * input * output :=
+  let (s', r) := src_next s in
   let '(w', tr, o) := w_step w (src_input r) in
   (w', s', tr, src_input r, o).
 
